@@ -795,6 +795,53 @@ class Interp:
         name = ast.unparse(e.func) if isinstance(e, ast.Call) else ast.unparse(e)
         raise PyRaise(name)
 
+    _EXC_PARENTS = {"IndexError": "LookupError", "KeyError": "LookupError", "LookupError": "Exception", "ValueError": "Exception", "TypeError": "Exception",
+                    "ZeroDivisionError": "ArithmeticError", "OverflowError": "ArithmeticError", "ArithmeticError": "Exception", "NotImplementedError": "RuntimeError",
+                    "RuntimeError": "Exception", "AttributeError": "Exception", "AssertionError": "Exception", "StopIteration": "Exception", "Exception": "BaseException"}
+
+    def _exc_matches(self, raised, handler_type):
+        """does `except <handler_type>` catch an exception whose class is NAMED `raised`?  (names only: the interpreted program's
+        exceptions are recorded by class name; unknown library exception classes match by their last dotted component)"""
+        if handler_type is None:
+            return True
+        names = [ast.unparse(t).split(".")[-1] for t in (handler_type.elts if isinstance(handler_type, ast.Tuple) else [handler_type])]
+        r = raised.split(".")[-1].split("(")[0]
+        seen = set()
+        while r and r not in seen:
+            if r in names:
+                return True
+            seen.add(r)
+            r = self._EXC_PARENTS.get(r, "Exception" if r not in ("BaseException", "Exception") else ("BaseException" if r == "Exception" else None))
+        return False
+
+    def s_Try(self, st, env):
+        """try / except / else / finally over the interpreted program's own exceptions (PyRaise); the interpreter's control signals
+        (_Return, path forking, Untranslatable) pass through untouched"""
+        try:
+            try:
+                self.exec_block(st.body, env)
+            except PyRaise as ex:
+                if ex.exc == "reraise":
+                    raise
+                for h in st.handlers:
+                    if self._exc_matches(ex.exc, h.type):
+                        if h.name:
+                            env[h.name] = ex
+                        try:
+                            self.exec_block(h.body, env)
+                        except PyRaise as ex2:
+                            if ex2.exc == "reraise":
+                                raise ex
+                            raise
+                        break
+                else:
+                    raise
+            else:
+                self.exec_block(st.orelse, env)
+        finally:
+            if st.finalbody:
+                self.exec_block(st.finalbody, env)
+
     def s_FunctionDef(self, st, env):
         env[st.name] = self.make_function(st, env, qual=f"{self.current_qual()}.<locals>.{st.name}")
 
